@@ -26,7 +26,7 @@ def subst(e, name, by):
     if t == "call": return [t, e[1], [subst(a, name, by) for a in e[2]]]
 
 
-def mdl_to_yaml(mdl, derived=None, style=None):
+def mdl_to_yaml(mdl, derived=None, style=None, node_refs=None):
     """YAML text defining the model.  derived: {opid: {"chain": [edit, ...]}} -> the operator is written as a chain of `base:` templates,
     the MDL's operator being the *result*; each edit = {"replace": {name: expr}, "add_vars": {name: decl}, "add_eqs": [eq]} applied to the previous link."""
     L = ["%YAML 1.2", "---", ""]
@@ -91,7 +91,7 @@ def mdl_to_yaml(mdl, derived=None, style=None):
         else:
             L.append("  nodes:")
             for l, ntid in c["nodes"].items():
-                L.append(f"    {l}: {ntid}_{mdl['node_templates'][ntid]['name']}")
+                L.append(f"    {l}: {(node_refs or {}).get(l, '')}{ntid}_{mdl['node_templates'][ntid]['name']}")
         L.append("  edges:" + (" []" if not c.get("edges") else ""))
         for e in c.get("edges", []):
             L.append(f"    - [{e['src']}, {e['tgt']}, null, {{weight: {yaml_num(e['w'])}}}]")
@@ -162,6 +162,24 @@ def gen_case(rng, tier, via):
         if via in ("yaml", "inherit"):
             case["yaml_text"] = mdl_to_yaml(mdl, derived, style)
             case["yaml_root"] = mdl["circuit"]["name"]
+        c = mdl["circuit"]
+        if via == "yaml" and not c.get("circuits") and len(c["nodes"]) >= 2 and rng.random() < 0.6:
+            # two template files: the first node is named by its full path into a second file that defines templates of the same names
+            # (all other node templates carry different values there); the remaining nodes are named locally and must come from the circuit's own file
+            first = next(iter(c["nodes"]))
+            import copy
+            decoy = copy.deepcopy(mdl)
+            for ntid, nt in decoy["node_templates"].items():
+                if ntid == c["nodes"][first]:
+                    continue
+                o = nt["ops"][0]
+                names = [k for k, d in mdl["ops"][o]["vars"].items() if d["decl"] in ("const", "var", "output")]
+                if names:
+                    ov = nt.setdefault("overrides", {}).setdefault(o, {})
+                    ov[names[0]] = C.q2s(F(ov.get(names[0], mdl["ops"][o]["vars"][names[0]]["value"])) + 3)
+            case["yaml_files"] = {"other.yaml": mdl_to_yaml(decoy, None, style)}
+            case["yaml_text"] = mdl_to_yaml(mdl, None, style, node_refs={first: "@@YDIR@@/other/"})
+            case["stream"] = "yaml2"
         o = N.oracle_case(case)
         if "error" in o or o["bits"] > 46:
             continue
